@@ -62,30 +62,38 @@ func newLeafHashOp
   props C01 C02 C12
   requires pos != nil
   ensures result != nil && fresh(result) && result.pos == pos && result.Value == value
+  // (the equations below are the definition of evalI, history.spec, unfolded at the new object)
+  ensures C04/evalI-of-leaf: evalI(box(result), theCache()) == H(cat(bytes(value), posb(pos.Index, pos.Height)))
 
 func newInnerHashOp
-  props C01 C02 C03 C12
+  props C01 C02 C03 C04 C12
   requires pos != nil && !isnil(left) && !isnil(right)
   ensures result != nil && fresh(result) && result.pos == pos && result.Left == left && result.Right == right
+  ensures C04/evalI-of-inner: evalI(box(result), theCache()) == H(cat(cat(evalI(left, theCache()), evalI(right, theCache())), posb(pos.Index, pos.Height)))
 
 func newPartialInnerHashOp
-  props C01 C02 C03 C12
+  props C01 C02 C03 C04 C12
   requires pos != nil && !isnil(left)
   ensures result != nil && fresh(result) && result.pos == pos && result.Left == left
+  ensures C04/evalI-of-partial: evalI(box(result), theCache()) == H(cat(evalI(left, theCache()), posb(pos.Index, pos.Height)))
 
 func newGetCacheOp
-  props C01 C02 C03 C12
+  props C01 C02 C03 C04 C12
   requires pos != nil
   ensures result != nil && fresh(result) && result.pos == pos
+  ensures C04/evalI-of-get: evalI(box(result), theCache()) == pathval(theCache(), posb(pos.Index, pos.Height))
 
 func newPutCacheOp
   props C01 C04 C12
   requires !isnil(op)
   ensures result != nil && fresh(result) && result.operation == op
+  // (by unfolding the definition of evalI at the new object: a wrapper passes its operand's value through)
+  ensures C04/evalI-of-put: evalI(box(result), theCache()) == evalI(op, theCache())
 func newMutateOp
   props C01 C04 C12
   requires !isnil(op)
   ensures result != nil && fresh(result) && result.operation == op
+  ensures C04/evalI-of-mutate: evalI(box(result), theCache()) == evalI(op, theCache())
 func newCollectOp
   props C01 C03 C12
   requires !isnil(op)
@@ -96,37 +104,75 @@ func newCollectOp
 // that type's Accept below (dynamic dispatch itself is the Go runtime's and is trusted).
 func operation.Accept
   requires !isnil(visitor)
-  modifies everything when !istype(visitor, *computeHashVisitor)
+  modifies everything when !istype(visitor, *computeHashVisitor) && !istype(visitor, *insertVisitor)
+  // the inserting visitor appends to its own mutation list and puts into its cache, nothing else
+  modifies dyn(visitor, *insertVisitor).mutations when istype(visitor, *insertVisitor)
+  modifies cachePuts when istype(visitor, *insertVisitor)
   may_panic
   ensures istype(visitor, *computeHashVisitor) ==> bytes(result) == evalC(self, dyn(visitor, *computeHashVisitor))
+  ensures istype(visitor, *insertVisitor) ==> bytes(result) == evalI(self, dyn(visitor, *insertVisitor).cache)
 
 func operation.Position
   ensures result != nil
 
 func leafHashOp.Accept
-  props C02 C12
+  props C02 C04 C12
   requires !isnil(visitor)
-  modifies everything when !istype(visitor, *computeHashVisitor)
+  modifies everything when !istype(visitor, *computeHashVisitor) && !istype(visitor, *insertVisitor)
+  modifies dyn(visitor, *insertVisitor).mutations when istype(visitor, *insertVisitor)
+  modifies cachePuts when istype(visitor, *insertVisitor)
   may_panic
   ensures C02/evalC-leaf: istype(visitor, *computeHashVisitor) ==> bytes(result) == H(cat(bytes(o.Value), posb(o.pos.Index, o.pos.Height)))
+  ensures C04/evalI-leaf: istype(visitor, *insertVisitor) ==> bytes(result) == H(cat(bytes(o.Value), posb(o.pos.Index, o.pos.Height)))
 func innerHashOp.Accept
-  props C02 C12
+  props C02 C04 C12
   requires !isnil(visitor)
-  modifies everything when !istype(visitor, *computeHashVisitor)
+  modifies everything when !istype(visitor, *computeHashVisitor) && !istype(visitor, *insertVisitor)
+  modifies dyn(visitor, *insertVisitor).mutations when istype(visitor, *insertVisitor)
+  modifies cachePuts when istype(visitor, *insertVisitor)
   may_panic
   ensures C02/evalC-inner: istype(visitor, *computeHashVisitor) ==> bytes(result) == H(cat(cat(evalC(o.Left, dyn(visitor, *computeHashVisitor)), evalC(o.Right, dyn(visitor, *computeHashVisitor))), posb(o.pos.Index, o.pos.Height)))
+  ensures C04/evalI-inner: istype(visitor, *insertVisitor) ==> bytes(result) == H(cat(cat(evalI(o.Left, dyn(visitor, *insertVisitor).cache), evalI(o.Right, dyn(visitor, *insertVisitor).cache)), posb(o.pos.Index, o.pos.Height)))
 func partialInnerHashOp.Accept
-  props C02 C12
+  props C02 C04 C12
   requires !isnil(visitor)
-  modifies everything when !istype(visitor, *computeHashVisitor)
+  modifies everything when !istype(visitor, *computeHashVisitor) && !istype(visitor, *insertVisitor)
+  modifies dyn(visitor, *insertVisitor).mutations when istype(visitor, *insertVisitor)
+  modifies cachePuts when istype(visitor, *insertVisitor)
   may_panic
   ensures C02/evalC-partial: istype(visitor, *computeHashVisitor) ==> bytes(result) == H(cat(evalC(o.Left, dyn(visitor, *computeHashVisitor)), posb(o.pos.Index, o.pos.Height)))
+  ensures C04/evalI-partial: istype(visitor, *insertVisitor) ==> bytes(result) == H(cat(evalI(o.Left, dyn(visitor, *insertVisitor).cache), posb(o.pos.Index, o.pos.Height)))
 func getCacheOp.Accept
-  props C02 C12
+  props C02 C04 C12
   requires !isnil(visitor)
-  modifies everything when !istype(visitor, *computeHashVisitor)
+  modifies everything when !istype(visitor, *computeHashVisitor) && !istype(visitor, *insertVisitor)
+  modifies dyn(visitor, *insertVisitor).mutations when istype(visitor, *insertVisitor)
+  modifies cachePuts when istype(visitor, *insertVisitor)
   may_panic
   ensures C02/evalC-get: istype(visitor, *computeHashVisitor) ==> bytes(result) == pathval(dyn(visitor, *computeHashVisitor).cache, posb(o.pos.Index, o.pos.Height))
+  ensures C04/evalI-get: istype(visitor, *insertVisitor) ==> bytes(result) == pathval(dyn(visitor, *insertVisitor).cache, posb(o.pos.Index, o.pos.Height))
+func putCacheOp.Accept
+  props C04
+  requires !isnil(visitor)
+  modifies everything when !istype(visitor, *computeHashVisitor) && !istype(visitor, *insertVisitor)
+  modifies dyn(visitor, *insertVisitor).mutations when istype(visitor, *insertVisitor)
+  modifies cachePuts when istype(visitor, *insertVisitor)
+  may_panic
+  ensures C04/evalI-put: istype(visitor, *insertVisitor) ==> bytes(result) == evalI(o.operation, dyn(visitor, *insertVisitor).cache)
+func mutateOp.Accept
+  props C04
+  requires !isnil(visitor)
+  modifies everything when !istype(visitor, *computeHashVisitor) && !istype(visitor, *insertVisitor)
+  modifies dyn(visitor, *insertVisitor).mutations when istype(visitor, *insertVisitor)
+  modifies cachePuts when istype(visitor, *insertVisitor)
+  may_panic
+  ensures C04/evalI-mutate: istype(visitor, *insertVisitor) ==> bytes(result) == evalI(o.operation, dyn(visitor, *insertVisitor).cache)
+func putCacheOp.Position
+  props C04
+  ensures result != nil
+func mutateOp.Position
+  props C04
+  ensures result != nil
 func leafHashOp.Position
   props C02 C12
   ensures result != nil && result == o.pos
@@ -142,27 +188,40 @@ func getCacheOp.Position
 
 // (for the hash-computing visitor each clause is the proved postcondition of its method below)
 func opVisitor.VisitLeafHashOp
-  modifies everything when !istype(self, *computeHashVisitor)
+  modifies everything when !istype(self, *computeHashVisitor) && !istype(self, *insertVisitor)
   may_panic
-  ensures istype(self, *computeHashVisitor) ==> bytes(result) == H(cat(bytes(op.Value), posb(op.pos.Index, op.pos.Height)))
+  ensures istype(self, *computeHashVisitor) || istype(self, *insertVisitor) ==> bytes(result) == H(cat(bytes(op.Value), posb(op.pos.Index, op.pos.Height)))
 func opVisitor.VisitInnerHashOp
-  modifies everything when !istype(self, *computeHashVisitor)
+  modifies everything when !istype(self, *computeHashVisitor) && !istype(self, *insertVisitor)
+  modifies dyn(self, *insertVisitor).mutations when istype(self, *insertVisitor)
+  modifies cachePuts when istype(self, *insertVisitor)
   may_panic
   ensures istype(self, *computeHashVisitor) ==> bytes(result) == H(cat(cat(evalC(op.Left, dyn(self, *computeHashVisitor)), evalC(op.Right, dyn(self, *computeHashVisitor))), posb(op.pos.Index, op.pos.Height)))
+  ensures istype(self, *insertVisitor) ==> bytes(result) == H(cat(cat(evalI(op.Left, dyn(self, *insertVisitor).cache), evalI(op.Right, dyn(self, *insertVisitor).cache)), posb(op.pos.Index, op.pos.Height)))
 func opVisitor.VisitPartialInnerHashOp
-  modifies everything when !istype(self, *computeHashVisitor)
+  modifies everything when !istype(self, *computeHashVisitor) && !istype(self, *insertVisitor)
+  modifies dyn(self, *insertVisitor).mutations when istype(self, *insertVisitor)
+  modifies cachePuts when istype(self, *insertVisitor)
   may_panic
   ensures istype(self, *computeHashVisitor) ==> bytes(result) == H(cat(evalC(op.Left, dyn(self, *computeHashVisitor)), posb(op.pos.Index, op.pos.Height)))
+  ensures istype(self, *insertVisitor) ==> bytes(result) == H(cat(evalI(op.Left, dyn(self, *insertVisitor).cache), posb(op.pos.Index, op.pos.Height)))
 func opVisitor.VisitGetCacheOp
-  modifies everything when !istype(self, *computeHashVisitor)
+  modifies everything when !istype(self, *computeHashVisitor) && !istype(self, *insertVisitor)
   may_panic
   ensures istype(self, *computeHashVisitor) ==> bytes(result) == pathval(dyn(self, *computeHashVisitor).cache, posb(op.pos.Index, op.pos.Height))
+  ensures istype(self, *insertVisitor) ==> bytes(result) == pathval(dyn(self, *insertVisitor).cache, posb(op.pos.Index, op.pos.Height))
 func opVisitor.VisitPutCacheOp
-  modifies everything when !istype(self, *computeHashVisitor)
+  modifies everything when !istype(self, *computeHashVisitor) && !istype(self, *insertVisitor)
+  modifies dyn(self, *insertVisitor).mutations when istype(self, *insertVisitor)
+  modifies cachePuts when istype(self, *insertVisitor)
   may_panic
+  ensures istype(self, *insertVisitor) ==> bytes(result) == evalI(op.operation, dyn(self, *insertVisitor).cache)
 func opVisitor.VisitMutateOp
-  modifies everything when !istype(self, *computeHashVisitor)
+  modifies everything when !istype(self, *computeHashVisitor) && !istype(self, *insertVisitor)
+  modifies dyn(self, *insertVisitor).mutations when istype(self, *insertVisitor)
+  modifies cachePuts when istype(self, *insertVisitor)
   may_panic
+  ensures istype(self, *insertVisitor) ==> bytes(result) == evalI(op.operation, dyn(self, *insertVisitor).cache)
 func opVisitor.VisitCollectOp
   modifies everything when !istype(self, *computeHashVisitor)
   may_panic
@@ -190,6 +249,69 @@ func computeHashVisitor.VisitGetCacheOp
   props C02 C12
   may_panic
   ensures C02/cached-value: bytes(result) == pathval(v.cache, posb(op.pos.Index, op.pos.Height))
+
+// ---- C04: the history digest is a canonical function of the event sequence ----------
+// The inserting visitor computes the same hashes as evalI (history.spec); a single Add,
+// on a cache that holds the true hashes of the subtrees frozen before `version`, returns
+// the true root hash Hist(0, len64(version), version) of the sequence ev(0..version).
+
+immutable insertVisitor.hasher, insertVisitor.cache, insertVisitor.storageTable by newInsertVisitor
+define InsOK(v) = v != nil && !isnil(v.hasher) && !isnil(v.cache)
+
+func newInsertVisitor
+  props C04
+  requires !isnil(hasher) && !isnil(cache)
+  ensures result != nil && fresh(result) && result.hasher == hasher && result.cache == cache
+
+func insertVisitor.VisitLeafHashOp
+  props C04
+  requires InsOK(v)
+  may_panic
+  ensures C04/leaf-hash: bytes(result) == H(cat(bytes(op.Value), posb(op.pos.Index, op.pos.Height)))
+func insertVisitor.VisitInnerHashOp
+  props C04
+  requires InsOK(v)
+  may_panic
+  modifies v.mutations, cachePuts
+  ensures C04/inner-hash: bytes(result) == H(cat(cat(evalI(op.Left, v.cache), evalI(op.Right, v.cache)), posb(op.pos.Index, op.pos.Height)))
+func insertVisitor.VisitPartialInnerHashOp
+  props C04
+  requires InsOK(v)
+  may_panic
+  modifies v.mutations, cachePuts
+  ensures C04/partial-hash: bytes(result) == H(cat(evalI(op.Left, v.cache), posb(op.pos.Index, op.pos.Height)))
+func insertVisitor.VisitGetCacheOp
+  props C04
+  requires InsOK(v)
+  may_panic
+  ensures C04/cached-value: bytes(result) == pathval(v.cache, posb(op.pos.Index, op.pos.Height))
+func insertVisitor.VisitPutCacheOp
+  props C04
+  requires InsOK(v)
+  may_panic
+  modifies v.mutations, cachePuts
+  ensures C04/put-passes-through: bytes(result) == evalI(op.operation, v.cache)
+func insertVisitor.VisitMutateOp
+  props C04
+  requires InsOK(v)
+  may_panic
+  modifies v.mutations, cachePuts
+  ensures C04/mutate-passes-through: bytes(result) == evalI(op.operation, v.cache)
+
+// the cache holds the true hash of every subtree completed before version V
+define frozenBefore(i, h, V) = h < 64 && i + ((uint64(1) << uint64(h)) - 1) >= i && i + ((uint64(1) << uint64(h)) - 1) < V
+define StoreOK(c, V) = forall i uint64 :: forall h uint16 :: frozenBefore(i, h, V) ==> pathval(c, posb(i, h)) == Hist(i, h, V)
+
+func pruneToInsert
+  props C04
+  ensures !isnil(result)
+  ensures C04/root-value: bytes(eventDigest) == ev(version) && StoreOK(theCache(), version) ==> evalI(result, theCache()) == Hist(0, uint16(len64(version)), version)
+func pruneToInsert.traverse
+  props C04
+  requires pos != nil
+  decreases pos.Height
+  ensures !isnil(result)
+  ensures C04/subtree-value: bytes(eventDigest) == ev(version) && pos.Height <= 64 && inRange(version, pos.Index, pos.Height) && StoreOK(theCache(), version) ==> evalI(result, theCache()) == Hist(pos.Index, pos.Height, version)
 
 // ---- pruning for verification (recursion on pos.Height terminates) ------------
 
@@ -239,8 +361,13 @@ func pruneToVerifyIncrementalEnd.traverse
 // modularly against them; each clause is an assumption until its check exists.
 
 func HistoryTree.Add
-  modifies everything
+  props C04
+  requires !isnil(t.hasher) && !isnil(t.writeCache)
+  may_panic
+  modifies cachePuts
   ensures isnil(result_2)
+  // (theCache() is an arbitrary cache: the clause holds for whatever cache the tree writes through)
+  ensures C04/history-digest: t.writeCache == theCache() && bytes(eventDigest) == ev(version) && StoreOK(theCache(), version) ==> bytes(result_0) == Hist(0, uint16(len64(version)), version)
 func HistoryTree.AddBulk
   modifies everything
   ensures isnil(result_2) && len(result_0) == len(eventDigests)
